@@ -1,6 +1,12 @@
 (* C14 — read-only and copy-making operations leave a template unchanged.
    Statements only; every proof is `exact <lemma of MutationProofs>` or a computed witness.
    `mstep` / `mrun` = the code as it is: mstep_gen fixed_state_carry fixed_shared_edge_dicts fixed_D98 = mstep_gen true true true. *)
+(* What is and what is not a theorem here (independent review, DESIGN.md section 12): the content of C14_full is (i) reads over
+   the store = reads over the tree, (ii) copy_circ only appends, (iii) the two modelled write paths D98 (collect_mut) and D82
+   (derive-and-edit) with their switches.  For the other operations non-mutation is built into the model (MToYaml and reads other
+   than collect_edges are the identity on the store; compile / run keep the bookkeeping when `fixed`): that from_operator does
+   not write into op.variables, that OperatorTemplate.update_template / loading a derived template leave the base alone and that
+   in_place=False leaves the state bookkeeping alone is decided by the correspondence run only. *)
 From Coq Require Import List String ZArith QArith Qcanon Bool Arith.
 From PV Require Import Heap Values ValuesProofs Mutation MutationProofs.
 Import ListNotations.
